@@ -8,8 +8,11 @@ for d in seeded/*/; do
   [ -f seeded/$S/patch.diff ] || { echo "== $S: no own patch (see meta.json)" >> $out; continue; }
   P=$(echo $S | sed 's/[bcd]$//')
   if ! git -C /repo apply /verif/seeded/$S/patch.diff 2>>$out; then echo "== $S: PATCH DOES NOT APPLY" >> $out; git -C /repo checkout -- .; continue; fi
-  res=$(./check $P --tier quick 2>&1 | grep -E "^VIOLATION" | head -1 | cut -c1-120)
-  echo "== $S: ${res:-MISSED}" >> $out
+  log=$(./check $P --tier quick 2>&1)
+  res=$(echo "$log" | grep -E "^VIOLATION" | head -1 | cut -c1-120)
+  n=$(echo "$log" | grep -oE "[0-9]+ disagreements" | head -1)
+  k=$(grep -c "^op:" /verif/$(echo "$res" | grep -oE "replays/[^ ]+") 2>/dev/null)
+  echo "== $S: ${res:-MISSED} [$n; $k cases in the replay]" >> $out
   git -C /repo checkout -- .
 done
 echo DONE >> $out
